@@ -73,7 +73,7 @@ type Recovered struct {
 	Hung    bool   // the restart did not return (an engine goroutine was abandoned: the process should be recycled)
 	Failure string // restart or scan panicked / failed
 	Tables  map[string][]rm.Row
-	Battery string // post-recovery battery failure
+	Battery string      // post-recovery battery failure
 	Trace   []rec.Event // RecoverRecorded: the I/O events of the restart itself
 	DB      *sqlx.DB
 }
@@ -254,10 +254,10 @@ func runBattery(db *sqlx.DB, tables []TableDef, have map[string][]rm.Row) string
 
 // Verdict of comparing a recovered database with the oracle.
 type Verdict struct {
-	OK       bool
-	C01      []string // committed effect missing / damaged, restart failure
-	C02      []string // loser effect present, half-applied in-commit transaction
-	Matched  string   // "base" or "base+T<n>"
+	OK      bool
+	C01     []string // committed effect missing / damaged, restart failure
+	C02     []string // loser effect present, half-applied in-commit transaction
+	Matched string   // "base" or "base+T<n>"
 }
 
 func stateRows(s State, table string) []rm.Row {
@@ -281,13 +281,25 @@ func (h *History) Judge(k int, rc *Recovered) Verdict {
 		}
 		return v
 	}
+	// every subset of the transactions whose commit was in progress may have become durable (single-goroutine
+	// histories have at most one; concurrent histories one per client). In-progress commits touch disjoint rows
+	// or are ordered by their row locks, so applying a subset in commit-call order is exact.
 	cands := []State{base}
 	names := []string{"base"}
-	for _, u := range inCommit {
+	if len(inCommit) > 10 {
+		inCommit = inCommit[:10]
+	}
+	for mask := 1; mask < 1<<len(inCommit); mask++ {
 		c := base.clone()
-		applyOps(c, u.Ops)
+		name := "base"
+		for i, u := range inCommit {
+			if mask&(1<<i) != 0 {
+				applyOps(c, u.Ops)
+				name += fmt.Sprintf("+T%d", u.N)
+			}
+		}
 		cands = append(cands, c)
-		names = append(names, fmt.Sprintf("base+T%d", u.N))
+		names = append(names, name)
 	}
 	for ci, c := range cands {
 		ok := true
